@@ -223,7 +223,7 @@ def main():
                     witness = v
         rec = dict(property=pid, obligation=name, clause=e["detail"], contract=e["contract"], kind="proof-obligation-failed",
                    failing_paths=e["failures"][:5], solver_output="sat (counter-model in failing_paths[].model)",
-                   native_witness=witness, replay_cmd="./check.py %s --replay %s" % (pid, rp), src_root=src_root)
+                   native_witness=witness, replay_cmd="./bin/check %s --replay %s" % (pid, rp), src_root=src_root, tier=tier, seed=seed)
         with open(os.path.join(HERE, rp), "w") as f:
             json.dump(rec, f, indent=1, default=str)
         suffix = "" if witness else " no-failing-input-found"
@@ -236,7 +236,8 @@ def main():
         nviol += 1
         rp = os.path.join("replays", pid, _safe("bounded-" + v["check"]) + ".json")
         rec = dict(property=pid, obligation=v["check"], kind="bounded-contract-violation", input=v.get("input"), observed=v.get("observed"),
-                   expected=v.get("expected"), replay=v.get("replay"), replay_cmd="./check.py %s --replay %s" % (pid, rp), src_root=src_root)
+                   expected=v.get("expected"), replay=v.get("replay"), replay_cmd="./bin/check %s --replay %s" % (pid, rp), src_root=src_root,
+                   tier=tier, seed=seed)
         with open(os.path.join(HERE, rp), "w") as f:
             json.dump(rec, f, indent=1, default=str)
         out_lines.append("VIOLATION property=%s replay=%s check=%s" % (pid, rp, v["check"]))
